@@ -7,6 +7,7 @@
 //!   wordops         all provided word operations on a grid of boundary pairs, through real circuit bootstrapping
 //!   shifts          sll/srl/sra for every shift amount 0..63 (and high-bit aliases)
 //!   swap/select/retrieve/retriever/blind_rotation/ggsw_rotation   (c15b.rs)
+//!   retriever_history  explicit-state search over call histories on one GLWEBlindRetriever (c15b.rs)
 //!   cbt             circuit bootstrapping, constant and exponent mode, every GGSW cell decrypted (c15b.rs)
 //!   debug_prepare   FheUintPreparedDebug::prepare + noise at every (row, col) (c15b.rs)
 //!   prepare_custom  partial preparation for every (start, length), four entry points (c15b.rs)
@@ -902,6 +903,7 @@ where
     crate::c15b::fam_splice::<B>(run, &pool, &pl.structural);
     crate::c15b::fam_swap::<B>(run, &pool, &pl.structural);
     crate::c15b::fam_select::<B>(run, &pool, &pl.structural);
+    crate::c15b::fam_retriever_history::<B>(run, &pool, &pl.structural);
     crate::c15b::fam_rotation::<B>(run, &pool, &pl.structural);
     crate::c15b::fam_cbt::<B>(run, &pool, &lwe_sets);
     crate::c15b::fam_debug::<B>(run, &pool, &lwe_sets);
